@@ -10,7 +10,8 @@ pub(crate) struct Client {
 }
 
 impl Client {
-  const RX_BUF_LEN: usize = 8192;
+  // The largest possible UDP datagram: a reply is never truncated by `recv`.
+  const RX_BUF_LEN: usize = 65535;
   const UDP_SOCKET_READ_TIMEOUT_S: u64 = 3;
   const UDP_SOCKET_READ_TIMEOUT_NS: u32 = 0;
 
@@ -85,7 +86,7 @@ impl Client {
       .local_addr()
       .context(error::UdpSocketLocalAddress)?;
     let req = announce::Request::new(connection_id, *btinh, self.peer_id, local_addr.port());
-    let mut buf = [0u8; Self::RX_BUF_LEN];
+    let mut buf = vec![0u8; Self::RX_BUF_LEN];
     let (_, payload) = self.exchange(&req, &mut buf)?;
 
     Client::parse_compact_peer_list(payload, local_addr.is_ipv6())
